@@ -30,6 +30,14 @@ theorem chooseErr_mem {errs : List Code} {w : Option Code} {c : Code} (h : choos
       · simp at h; subst h; simp
     · simp at h; subst h; simp
 
+theorem chooseErr_ne_none {errs : List Code} (w : Option Code) (h : errs ≠ []) : chooseErr errs w ≠ none := by
+  unfold chooseErr
+  split
+  · exact absurd rfl h
+  · split
+    · split <;> simp
+    · simp
+
 /-! ### takeOp -/
 
 theorem takeOp_perm {d : Digest} {l : List (Digest × Buf)} {b : Buf} {rest : List (Digest × Buf)}
@@ -110,38 +118,62 @@ theorem issueOne_perm (cas0 : List Digest) (g : Group) (e : Digest × Option Cod
   · exact step b pend' ht
   · exact step b pend' ht
 
-theorem issuePuts_cas_mono (cas0 : List Digest) (g : Group) (t : List (Digest × Option Code)) (x : Digest)
+theorem issuePuts_cas_mono (cas0 : List Digest) (g : Group) (t : List IssueEv) (x : Digest)
     (h : x ∈ g.cas) : x ∈ (issuePuts cas0 g t).cas := by
   induction t generalizing g with
   | nil => exact h
-  | cons e rest ih => exact ih _ (issueOne_cas_mono cas0 g e x h)
+  | cons e rest ih =>
+    cases e with
+    | put d r => exact ih _ (issueOne_cas_mono cas0 g (d, r) x h)
+    | acquireFailed c => exact h
 
-theorem issuePuts_err_none (cas0 : List Digest) (g : Group) (t : List (Digest × Option Code))
+theorem issuePuts_err_none (cas0 : List Digest) (g : Group) (t : List IssueEv)
     (h : (issuePuts cas0 g t).errs = []) : g.errs = [] := by
   induction t generalizing g with
   | nil => exact h
-  | cons e rest ih => exact issueOne_err_none cas0 g e (ih _ h)
+  | cons e rest ih =>
+    cases e with
+    | put d r => exact issueOne_err_none cas0 g (d, r) (ih _ h)
+    | acquireFailed c => simp [issuePuts] at h
+
+/-- A failed semaphore acquisition is an error of the group. -/
+theorem issuePuts_acquireFailed (cas0 : List Digest) (g : Group) (c : Code) (rest : List IssueEv) :
+    (issuePuts cas0 g (.acquireFailed c :: rest)).errs ≠ [] := by
+  simp [issuePuts]
+
+theorem issuePuts_acquireFailed_after (cas0 : List Digest) (g : Group) (pre : List (Digest × Option Code))
+    (c : Code) (post : List IssueEv) :
+    (issuePuts cas0 g (pre.map (fun e => IssueEv.put e.1 e.2) ++ .acquireFailed c :: post)).errs ≠ [] := by
+  induction pre generalizing g with
+  | nil => exact issuePuts_acquireFailed cas0 g c post
+  | cons e rest ih => exact ih _
 
 /-- If the group ends without error, every operation that was pending is
 either still pending or its blob has been stored. -/
-theorem issuePuts_sound (cas0 : List Digest) (g : Group) (t : List (Digest × Option Code))
+theorem issuePuts_sound (cas0 : List Digest) (g : Group) (t : List IssueEv)
     (h : (issuePuts cas0 g t).errs = []) :
     ∀ p ∈ g.pend, p ∈ (issuePuts cas0 g t).pend ∨ p.1 ∈ (issuePuts cas0 g t).cas := by
   induction t generalizing g with
   | nil => intro p hp; left; exact hp
   | cons e rest ih =>
-    intro p hp
-    have h1 : (issueOne cas0 g e).errs = [] := issuePuts_err_none cas0 _ rest h
-    rcases issueOne_sound cas0 g e h1 p hp with h2 | h2
-    · exact ih _ h p h2
-    · right; exact issuePuts_cas_mono cas0 _ rest _ h2
+    cases e with
+    | put d r =>
+      intro p hp
+      have h1 : (issueOne cas0 g (d, r)).errs = [] := issuePuts_err_none cas0 _ rest h
+      rcases issueOne_sound cas0 g (d, r) h1 p hp with h2 | h2
+      · exact ih _ h p h2
+      · right; exact issuePuts_cas_mono cas0 _ rest _ h2
+    | acquireFailed c => simp [issuePuts] at h
 
-theorem issuePuts_perm (cas0 : List Digest) (g : Group) (t : List (Digest × Option Code)) :
+theorem issuePuts_perm (cas0 : List Digest) (g : Group) (t : List IssueEv) :
     ((issuePuts cas0 g t).pend.map (·.2) ++ (issuePuts cas0 g t).consumed).Perm
       (g.pend.map (·.2) ++ g.consumed) := by
   induction t generalizing g with
   | nil => exact List.Perm.refl _
-  | cons e rest ih => exact (ih _).trans (issueOne_perm cas0 g e)
+  | cons e rest ih =>
+    cases e with
+    | put d r => exact (ih _).trans (issueOne_perm cas0 g (d, r))
+    | acquireFailed c => exact List.Perm.refl _
 
 /-! ### flushLocked -/
 
